@@ -141,7 +141,8 @@ fn model_segments(input: &[u8]) -> Vec<ExpSeg> {
                     if !cur.is_empty() {
                         out.push(seg(&s, std::mem::take(&mut cur)));
                     }
-                    s.apply(&params);
+                    let well_formed = s.apply(&params);
+                    debug_assert!(well_formed, "the generator only emits well-formed SGR sequences");
                 }
                 _ => {}
             }
@@ -313,7 +314,6 @@ fn describe(input: &[u8]) -> Vec<String> {
 fn main_check(ctx: &Ctx) -> Outcome {
     let mut out = Outcome::default();
     let quick = ctx.quick();
-    std::panic::set_hook(Box::new(|_| {})); // panics are caught and reported as findings
     let acc = Acc { evals: AtomicU64::new(0), distinct: Default::default(), viol: Default::default(), clause_counts: Default::default() };
 
     // (S) single segment, every style
